@@ -1867,3 +1867,22 @@ for _var in ["grad_K_grad", "U_K_V", "gradU_outer", "linear_K"]:
         return _cplx_inner(var)
 
     reg(f"cplx_inner_{_var}", "c09 q", scalar="complex128", itypes=("cell", "exterior_facet"))(_mk)
+
+
+# ---- quadrilateral dS forms using derivative tables that are permutation-invariant on local facet 0 only ----
+
+@reg("dS_gradjump_DQ1_quadrilateral", "c02 c03 c08 q", itypes=("interior_facet",))
+def _():
+    m = mesh("quadrilateral")
+    V = space(m, "DQ", 1)
+    u, v = TrialFunction(V), TestFunction(V)
+    return inner(jump(grad(u)), jump(grad(v))) * dS
+
+
+@reg("dS_avggrad_Q1_linear_quadrilateral", "c02 c03 c08 q", itypes=("interior_facet",))
+def _():
+    m = mesh("quadrilateral")
+    V = space(m, "Q", 1)
+    v = TestFunction(V)
+    f = ufl.Coefficient(V)
+    return inner(avg(grad(f)), jump(grad(v))) * dS
